@@ -63,6 +63,13 @@ checks = [
  chk("C20", "model_checking",
      "LitConv.tla states Go's rune-literal rule and transcribes RuneValue/escapeCharVal; TLC enumerates every valid ASCII-spelled literal over the boundary digit set and checks agreement; the enumerated literals are replayed on util.RuneValue (generated), util.LitToRune (generator, overlay) and through one-token grammars on the real gocc. The all-code-points sweep and IntValue/UintValue are a plain Go loop against strconv (pure-function territory, outside TLC, stated as such).",
      TRUST + " strconv.UnquoteChar as the definition of Go literal semantics for the sweep.", "TLA+ case analysis (LitConv.tla) evaluated by TLC as oracle and test generator + replay on the three real consumers; exhaustive Go sweep against strconv for the pure-function half", "5/C20"),
+ chk("C14", "model_checking",
+     "Grammar files are produced from harness-rendered base grammars by seeded token-level and consistency mutations; GoccSyntax.tla judges each file: its token sequence is run through the canonical LR(1) machine of spec/gocc2.ebnf computed by LR1.tla (nothing of the shipped tables is used), and definitions/references are checked for undefined and duplicate names; for every file judged ill-formed the real gocc must exit non-zero. One-directional (ill => refused), as the property states.",
+     TRUST + " The harness tokenises only texts it rendered itself (classification by construction). Known finding F8 (error/empty are token identifiers to gocc) is excluded from the mutation operators and replayed as KNOWN-FINDING.",
+     "TLA+ oracle (GoccSyntax.tla over LR1.tla, evaluated by TLC) on seeded mutants + real gocc runs", "5/C14"),
+ chk("C15", "model_checking",
+     "spec/gocc2.ebnf is read independently; the shipped front-end tables are dumped in-package; TLC explores the whole reachable product of the shipped tables with the canonical LR(1) automaton of the documented grammar (every token sequence; productions matched by head and body); the shipped parser is driven through its exported Parse with logging reduce functions and every trace is validated against the driver model over the canonical tables of the documented grammar.",
+     TRUST, "TLA+ spec (LR1/LRProduct/LRParse/LRTrace) + TLC product reachability against the shipped tables + trace validation of the shipped parser", "5/C15"),
 ]
 
 claimed = {c["property_id"] for c in checks}
